@@ -352,7 +352,15 @@ fn execute(prog: Program) -> Outcome {
             // operations on one key issued on different nodes without waiting for quiescence in between:
             // nothing orders them, every node applies its own client's operation first
             let cross_node_race = !prog.settle_each && origin_nodes.get(&key).map(|s| s.len() > 1).unwrap_or(false);
-            let shape = if cross_node_race && !snapshot_before_remove {
+            // a node on which no client touched the key (and that is not the primary) only ever applies what the primary
+            // sends it, in the primary's order: when every operation was followed by quiescence it has no excuse to differ
+            let bystander = prog.settle_each && !origin_nodes.get(&key).map(|s| s.contains(&i)).unwrap_or(false) && !key.is_empty();
+            let shape = if bystander && !snapshot_before_remove {
+                let mut all: Vec<String> = sec.iter().chain(pri.iter()).cloned().collect();
+                all.sort();
+                all.dedup();
+                format!("bystander-differs:{}:{}", mode, all.join("+"))
+            } else if cross_node_race && !snapshot_before_remove {
                 let mut all: Vec<String> = sec.iter().chain(pri.iter()).cloned().collect();
                 all.sort();
                 all.dedup();
@@ -383,7 +391,6 @@ fn execute(prog: Program) -> Outcome {
                 shape,
                 format!("node n{} differs from the primary at quiescence: {} (operations on it: {:?})", i + 1, desc, touched),
             ));
-            break;
         }
     }
     out
